@@ -3,6 +3,7 @@ package main
 
 import (
 	"encoding/json"
+	"runtime/debug"
 	"fmt"
 	"os"
 	"strconv"
@@ -13,6 +14,7 @@ import (
 )
 
 func main() {
+	debug.SetGCPercent(3000)
 	if len(os.Args) < 2 {
 		fmt.Println("usage: vcheck <ID>|list [--tier quick|thorough] [--replay file]")
 		os.Exit(2)
@@ -75,5 +77,6 @@ func main() {
 		os.Exit(c.Finish())
 	}
 	ch.Run(c)
+	profStop()
 	os.Exit(c.Finish())
 }
